@@ -1468,3 +1468,20 @@ Proof.
   destruct (waiter_enters_Inv sched' s i (reachable_Inv keys sched) Hw Hnc) as [(Hi & Hp & _)|H]; auto.
   exfalso. pose proof (all_done_spec _ Hd i) as Hdi. unfold done, pcof in *. rewrite Hp in Hdi. discriminate.
 Qed.
+
+Lemma fifo_enter keys sched c j :
+  let s := reach keys sched in
+  j < length (s_tasks s) -> in_cs s j = false -> in_cs (step s c) j = true ->
+  c = CRun j /\
+  ((t_pc (get s j) = PWaitKey /\
+    exists l r, alookup (t_key (get s j)) (s_locks s) = Some l /\ l_waiters l = j :: r) \/
+   (t_pc (get s j) = PInit /\
+    forall x, In x (ws_of (alookup (t_key (get s j)) (s_locks s))) -> t_fut (get s x) = FCancelled)).
+Proof. exact (fifo_enter_Inv _ c j (reachable_Inv keys sched)). Qed.
+
+Lemma queue_is_fifo keys sched c k :
+  let s := reach keys sched in
+  let ws := ws_of (alookup k (s_locks s)) in
+  let ws' := ws_of (alookup k (s_locks (step s c))) in
+  ws' = ws \/ ws' = ws ++ [task_of c] \/ ws' = rm1 (task_of c) ws.
+Proof. exact (queue_step_Inv _ c k (reachable_Inv keys sched)). Qed.
